@@ -359,6 +359,21 @@ impl Prop for C08 {
             }
           }
         }
+        // the last hour of the civil year and the first of the next (the late-Zi roll meets the December wrap of the month base)
+        for y in ylo..=yhi {
+          if !sel(y, 10) {
+            continue;
+          }
+          if let Some(ix) = c.index(y, 12, 31) {
+            for sec in [82800i64, 84600, 86399] {
+              out.class("instants_in_the_last_hour_of_a_civil_year");
+              run_case(env, out, "time", &Case::ints(&[ix as i64, sec]), &ev);
+            }
+            if ix + 1 < NDAYS {
+              run_case(env, out, "time", &Case::ints(&[ix as i64 + 1, 1800]), &ev);
+            }
+          }
+        }
         // the year pillar turns at the Lichun instant of EVERY year (both tiers): the second before, the second itself,
         // the second after
         for y in ylo..=yhi {
